@@ -14,7 +14,7 @@ from __future__ import annotations
 import copy
 import itertools
 
-from mc.common import Ctx, pmap
+from mc.common import Ctx, pmap, tag
 from mc.explore import Chooser, bfs_levels, dfs
 from mc.fd import DerivationTree, NonTerminal, Terminal, build, leaf_value
 from mc.seams import max_repetitions, random_seam
@@ -375,6 +375,8 @@ def step(task):
             if (forest[a] == forest[b]) != (shape(forest[a]) == shape(forest[b])):
                 viol = dict(base, kind="equality_disagrees_with_structure", trees=[a, b], sig="equality_disagrees_with_structure")
                 break
+    if viol:
+        tag(viol, "mc.checks.c10", "step", task)
     return (canon(forest), viol, True)
 
 
